@@ -19,8 +19,10 @@ type ParserData struct {
 	loopInfo      []struct {
 		continueIndex int
 		breakIndex    int
+		blockDepth    int
 	}
-	loopLayer int // 当前loop层数
+	loopLayer  int // 当前loop层数
+	blockDepth int // 当前已打开的语句块数量，break/continue 跳出时需要先关闭循环内打开的块
 	codeStack []struct {
 		code    []ByteCode
 		index   int
@@ -45,7 +47,16 @@ func (e *ParserData) LoopBegin() {
 	e.loopInfo = append(e.loopInfo, struct {
 		continueIndex int
 		breakIndex    int
-	}{continueIndex: len(e.continueStack), breakIndex: len(e.breakStack)})
+		blockDepth    int
+	}{continueIndex: len(e.continueStack), breakIndex: len(e.breakStack), blockDepth: e.blockDepth})
+}
+
+// loopUnwindBlocks 在 break/continue 的跳转之前，关闭循环体内尚未关闭的语句块(如 if)，否则每次跳出都会在块栈上遗留一层
+func (e *ParserData) loopUnwindBlocks() {
+	info := e.loopInfo[len(e.loopInfo)-1]
+	for d := e.blockDepth - info.blockDepth; d > 0; d-- {
+		e.WriteCode(typeBlockPop, nil)
+	}
 }
 
 func (e *ParserData) LoopEnd() {
@@ -90,6 +101,11 @@ func (e *ParserData) AddOp(operator CodeType) {
 	var val interface{} = nil
 	if operator == typeJne || operator == typeJmp {
 		val = IntType(0)
+	}
+	if operator == typeBlockPush {
+		e.blockDepth++
+	} else if operator == typeBlockPop {
+		e.blockDepth--
 	}
 	e.WriteCode(operator, val)
 }
@@ -182,6 +198,7 @@ func (p *ParserData) ContinuePush() error {
 		if p.continueStack == nil {
 			p.continueStack = []IntType{}
 		}
+		p.loopUnwindBlocks()
 		p.AddOp(typeJmp)
 		p.continueStack = append(p.continueStack, IntType(p.codeIndex)-1)
 	} else {
@@ -216,6 +233,7 @@ func (p *ParserData) BreakPush() error {
 		if p.breakStack == nil {
 			p.breakStack = []IntType{}
 		}
+		p.loopUnwindBlocks()
 		p.AddOp(typeJmp)
 		p.breakStack = append(p.breakStack, IntType(p.codeIndex)-1)
 		return nil
